@@ -455,11 +455,23 @@ class Prepared:
         for name, kw in OPTION_SETS:
             if case.get('options') and name not in case['options']:
                 continue
+            if getattr(self, '_hung', False):
+                res.skip('compile-timeout-inconclusive')       # this program already hung the compiler once
+                res.cls(f'rejected:{name}')
+                continue
             c = make_compiler(kw)
+            old_h = signal.signal(signal.SIGALRM, _alarm)
+            signal.alarm(40)            # watchdog: a compiler that does not terminate is inconclusive, never a verdict
             try:
                 module = self._module(mod, fn, ctx, arg_types)
                 body = c.compile_module(module)
                 params, ret = c.signature(fn, ctx=ctx, arg_types=arg_types, module=module)
+            except _Timeout:
+                res.skip('compile-timeout-inconclusive')
+                res.cls(f'rejected:{name}')
+                res.count('compile_timeouts')
+                self._hung = True
+                continue
             except CppCompileError as e:
                 r = reject_reason(str(e))
                 res.skip(f'not-accepted:{r}')
@@ -469,8 +481,6 @@ class Prepared:
                         res.sample({'odd-rejection': str(e)[:400], 'src': case['src'], 'options': name})
                     res.count('odd_rejections')
                 continue
-            except _Timeout:
-                raise
             except Exception as e:      # not a CppCompileError: the backend crashed; the program is not "accepted"
                 res.skip(f'not-accepted:crash:{type(e).__name__}')
                 res.cls(f'rejected:{name}')
@@ -478,6 +488,9 @@ class Prepared:
                 if res.extra.get('compiler_crashes', 0) <= 4:
                     res.sample({'compiler-crash': f'{type(e).__name__}: {str(e)[:300]}', 'src': case['src'], 'options': name})
                 continue
+            finally:
+                signal.alarm(0)
+                signal.signal(signal.SIGALRM, old_h)
             res.cls(f'accepted:{name}')
             compiled[name] = (body, params, ret)
         res.cls('programs-offered')
@@ -591,6 +604,7 @@ class Prepared:
                 'extra_public': case.get('extra_public', []), 'origin': case.get('origin')}
         ran_opts = []
         alt_cache = {}
+        feats_all = set(case.get('features', ()))
         for ki, (kind, payload) in enumerate(outcomes):
             opts = self.kernel_opts[ki]
             if kind == 'invalid':
@@ -649,6 +663,9 @@ class Prepared:
                                 if repr(vt) != repr(self.expected[j]) and compare(vt, got_tree) is None]
                         # bucket = symptom class + option scope; finer hints go into the note
                         key = 'wrong-' + ('value' if mm in ('value', 'inf', 'nan') else mm)
+                        if 'loop-bound-rebound-in-body' in feats_all:
+                            # root cause seen with this shape: the emitted loop test re-reads a `range` bound the body rebinds
+                            key += '/loop-bound-rebound-in-body'
                         hint = f'mismatch={mm}' + (f' as-if-{"+".join(asif)}' if asif else '')
                         got = show_tree(got_tree)
                 f = failing.setdefault(key, [[], got, ''])
